@@ -42,11 +42,15 @@ def ediff1d(
 
     """
     ary = numpoly.aspolynomial(ary).ravel()
-    arys_ = [ary[1:] - ary[:-1]]
+    # fewer than two elements leave no differences; an empty part must not take
+    # part in the alignment below (`coefficients` is empty for empty arrays)
+    arys_ = [ary[1:] - ary[:-1]] if ary.size > 1 else []
     if to_end is not None:
         arys_.append(numpoly.aspolynomial(to_end).ravel())
     if to_begin is not None:
         arys_.insert(0, numpoly.aspolynomial(to_begin).ravel())
+    if not arys_:
+        return ary[:0] if ary.size else ary
     arys = tuple(numpoly.aspolynomial(ary) for ary in arys_)
     if len(arys) > 1:
         arys = numpoly.align_exponents(*arys)
@@ -55,7 +59,7 @@ def ediff1d(
         exponents=arys[0].exponents,
         shape=(sum([ary.size for ary in arys]),),
         names=arys[0].names,
-        dtype=ary[0].dtype,
+        dtype=ary.dtype,
     )
 
     idx = 0
